@@ -26,6 +26,90 @@ func runC11(c *Ctx) {
 	c11R2(c, "C11.R2")
 	c11R3(c, "C11.R3")
 	c11R4(c, "C11.R4")
+	c11R5(c, "C11.R5")
+	// "under any encryption method": each configured AEAD method really builds its cipher — a method that silently
+	// falls back to the plain codec authenticates nothing
+	c.importing = "C04"
+	c04R2(c, "C04.R2")
+	c.importing = ""
+}
+
+// C11.R5 — a dropped message leaves no trace in the receive machinery's pools: an object taken from a sync.Pool is put
+// back at most once on every path. A second Put hands the same object to two later takers; for the receive frame that
+// means two connections' reader goroutines decode into one Frame — one valid frame is lost, another delivered twice.
+func c11R5(c *Ctx, rule string) {
+	c.Rule(rule, "pool discipline on the receive and send paths: every object obtained from a sync.Pool is returned at most once per path (a deferred Put excludes any explicit one)", 3)
+	p := c.P
+	n := 0
+	for _, f := range p.RepoFuncs {
+		if f.Pkg == nil || strings.HasSuffix(p.Pos(f.Pos()), "_test.go") {
+			continue
+		}
+		rel := strings.TrimPrefix(strings.TrimPrefix(f.Pkg.Pkg.Path(), modPath), "/")
+		if rel != "internal/multiplex" && rel != "internal/common" {
+			continue
+		}
+		allInstrs(f, func(i ssa.Instruction) {
+			get, ok := i.(*ssa.Call)
+			if !ok || calleeName(&get.Call) != "(*sync.Pool).Get" {
+				return
+			}
+			// the taken object: the type assertion of the result (or the raw interface value)
+			var obj ssa.Value = get
+			for _, r := range *get.Referrers() {
+				if ta, isTA := r.(*ssa.TypeAssert); isTA {
+					obj = ta
+				}
+			}
+			isPutOf := func(cc *ssa.CallCommon) bool {
+				if cc == nil || calleeName(cc) != "(*sync.Pool).Put" || len(cc.Args) < 2 {
+					return false
+				}
+				v := cc.Args[1]
+				if mi, isMI := v.(*ssa.MakeInterface); isMI {
+					v = mi.X
+				}
+				return v == obj || v == ssa.Value(get)
+			}
+			var deferred, explicit []ssa.Instruction
+			allInstrs(f, func(j ssa.Instruction) {
+				switch x := j.(type) {
+				case *ssa.Defer:
+					if isPutOf(&x.Call) {
+						deferred = append(deferred, j)
+					}
+				case *ssa.Call:
+					if isPutOf(&x.Call) {
+						explicit = append(explicit, j)
+					}
+				}
+			})
+			if len(deferred)+len(explicit) == 0 {
+				return
+			}
+			n++
+			construct := "object of " + strings.TrimPrefix(Expr(get.Call.Args[0]), "&") + " taken in " + shortFn(p.ownerAnchor(f))
+			bad := ""
+			switch {
+			case len(deferred) > 1:
+				bad = "two deferred Puts of the same object"
+			case len(deferred) == 1 && len(explicit) > 0:
+				bad = "an explicit Put at " + c.at(explicit[0]) + " in addition to the deferred Put: on that path the object is returned twice"
+			default:
+				for _, e1 := range explicit {
+					for _, e2 := range explicit {
+						if forwardSearch(e1, func(k ssa.Instruction) bool { return k == ssa.Instruction(get) }, func(k ssa.Instruction) bool { return k == e2 }) != nil {
+							bad = "the Put at " + c.at(e2) + " is reachable after the Put at " + c.at(e1) + " without a new Get"
+						}
+					}
+				}
+			}
+			c.Check(bad == "", rule, construct, c.at(get), "returned at most once on every path", bad+": two later takers receive the same object and overwrite each other's data")
+		})
+	}
+	if n == 0 {
+		c.Undecided(rule, "sync.Pool Get/Put pairs in multiplex and common", "-", "none found")
+	}
 }
 
 func c11R1(c *Ctx, rule string) {
